@@ -228,7 +228,7 @@ PROPS["C12"] = dict(
     assumptions=["A-DRF", "time.AfterFunc timers never fire (the subscription fetch timeout is outside)"],
     stubs=["SubscriptionDataSource, SubscriptionResponseWriter, Reporter, AsyncErrorWriter: harness stubs", "sync/atomic/channels/context primitives modelled by the engine"],
     quick=[c12(1, 2, 3, 2), c12(1, 1, 7, 2), c12(1, 2, 5, 2), c12(2, 1, 11, 1)],
-    thorough=[c12(2, 1, 3, 2, 3000), c12(1, 2, 7, 3, 3000)],
+    thorough=[c12(2, 1, 3, 2, 3000), c12(1, 2, 7, 2, 3000), c12(1, 1, 7, 3, 3000), c12(2, 2, 3, 1, 3000), c12(2, 1, 15, 1, 3000)],
 )
 
 PROPS["C13"] = dict(
@@ -239,7 +239,7 @@ PROPS["C13"] = dict(
     assumptions=["A-DRF", "timers never fire"],
     stubs=["as C12"],
     quick=[c12(1, 1, 3, 2), c12(1, 1, 7, 2)],
-    thorough=[c12(2, 1, 3, 2, 3000), c12(2, 1, 7, 2, 3000)],
+    thorough=[c12(2, 1, 3, 2, 3000), c12(2, 1, 7, 1, 3000), c12(2, 1, 15, 1, 3000)],
 )
 
 C14H = ["resolve/c02_render.go", "common/zz_json.go", "resolve/c11_inbound.go", "resolve/c14_auth.go"]
